@@ -16,6 +16,15 @@ CHECKS = {
          'distinct elements per class; longer lists than the bound are not explored.',
          'DESIGN.md 2.3, 3/C10'),
 }
+CHECKS['C02'] = ('model_checking',
+         'exhaustive generator triples + expression trees + BFS over the group-element value graph on the real operators',
+         'All ordered triples of a generator set per class (rotations at 0/pi ladders, translations 1e-6..1e6), all '
+         'exponents -8..8, all expression trees of depth <= 2 (thorough 3) over {*,/,inv,**}, and a breadth-first '
+         'exploration of the value graph with the laws re-checked at every new state; products also compared with the '
+         'reference matrix / Hamilton product.',
+         'Bounded: claims cover the enumerated generators and depths only. Twist classes define no / or **, which '
+         'are therefore not demanded for them. Reference: numpy matrix product/inverse, 50-digit exponential for twists.',
+         'DESIGN.md 2.4, 3/C02')
 PENDING = {}
 
 def main():
